@@ -51,7 +51,11 @@ PATHS = ['/ok', '/rnd', '/empty', '/stream', '/red', '/ctx', '/x404', '/r409', '
          '/size/131072', '/size/262144', '/size/1048576',
          # query parameters that belong to some middleware but do NOT trigger it
          '/ok?_prof_sort=tottime', '/ok?_prof_sort=', '/x404?_prof_sort=nfl', '/red?_prof=', '/ok?unread_q=1&format=zzz',
-         '/ctx?_prof_sort=%00', '/ok?callback=x']
+         '/ctx?_prof_sort=%00', '/ok?callback=x', '/vary', '/vary2', '/vary']
+# Cookie headers a client may send although this server never set them (index 0 = the jar as it is)
+COOKIES = [None, 'clastic_cookie=garbage', 'clastic_cookie=AAAA?k=InYi', 'clastic_cookie="\xc3\xa9?\xc3\xa9=1"', 'clastic_cookie=a?b',
+           'clastic_cookie=aAAAA?k=InYi', 'clastic_cookie=AAAA?\xc3\xa9k=InYi&x=1', 'other=1; clastic_cookie=%%%', 'clastic_cookie=',
+           'clastic_cookie=AAAA?k', 'clastic_cookie=' + 'A' * 5000]
 AES = [('gzip', True), ('gzip;q=0', False), ('*', True), ('identity', False), (None, False), ('deflate, gzip;q=0.5', True),
        ('br', False), ('gzip, deflate, br', True), ('*;q=0', False)]
 METHODS = ['GET', 'GET', 'GET', 'HEAD', 'POST', 'DELETE']
@@ -112,12 +116,18 @@ def routes():
     def form(request):
         return Response('form:%s' % sorted(request.form.items()))
 
+    def vary():
+        return Response(BIG, headers={'Vary': 'Cookie'})
+
+    def vary2():
+        return Response(TEXT, mimetype='text/html', headers={'Vary': 'Origin, Accept-Language'})
+
     def size(n):
         # n compressible bytes: sizes sit on powers of two and their neighbours (buffer boundaries)
         return Response((b'0123456789abcdef' * (n // 16 + 1))[:n], mimetype='text/plain')
     return [('/ok', ok), ('/rnd', rndb), ('/empty', empty), ('/small', small), ('/text', text), ('/stream', stream), ('/red', red),
             ('/ctx', ctx, render_basic), ('/x404', x404), ('/r409', r409), ('/r404', r404), ('/nb', nb), ('/nbret', nbret),
-            ('/r400nb', r400nb), ('/x503', x503), ('/boom', boom), ('/boomkey', boomkey), GET('/g', ok), POST('/form', form), ('/b/', ok), ('/size/<n:int>', size)]
+            ('/r400nb', r400nb), ('/x503', x503), ('/boom', boom), ('/boomkey', boomkey), GET('/g', ok), POST('/form', form), ('/b/', ok), ('/size/<n:int>', size), ('/vary', vary), ('/vary2', vary2)]
 
 
 class OsProxy(object):
@@ -172,7 +182,7 @@ class C15(Check):
                   'stub': ['clock (stats + cookie seams)', 'random.random, os.urandom', 'client + WSGI server']}
     level_text = 'Lock-step differential simulation of client histories against a reference twin; sampled.'
     level_note = 'Trusted: the bare application as the reference; gzip.decompress.'
-    required_probes = ('long-history', 'concurrent-batch', 'gzip-compressed', 'gzip-not-accepted-identity', 'error-through-stack', 'null-route-through-stack',
+    required_probes = ('unsolicited-cookie-header', 'long-history', 'concurrent-batch', 'gzip-compressed', 'gzip-not-accepted-identity', 'error-through-stack', 'null-route-through-stack',
                        'head-through-gzip', 'clock-jump-within-request', 'mw-gzip', 'mw-stats', 'mw-cookie', 'mw-cache')
 
     def generate(self, seed, tier):
@@ -186,7 +196,8 @@ class C15(Check):
         ops = []
         for _ in range(rng.randint(6, 40)):
             ae = rng.randrange(len(AES))
-            op = {'path': rng.choice(PATHS), 'method': rng.choice(METHODS), 'ae': ae, 'dt': 0, 'jitter': [], 'draws': []}
+            op = {'path': rng.choice(PATHS), 'method': rng.choice(METHODS), 'ae': ae, 'dt': 0, 'jitter': [], 'draws': [],
+                  'cookie': rng.randrange(len(COOKIES)) if rng.random() < 0.15 else 0}
             if erng.random() < 0.3:
                 op['dt'] = erng.choice([0.001, 1, 59, 3600, -5, 86400 * 40])
             if erng.random() < 0.2:
@@ -322,6 +333,8 @@ class C15(Check):
                 if ae is not None:
                     hdr['Accept-Encoding'] = ae
                 ck = client.cookie_header()
+                if op.get('cookie'):
+                    ck = COOKIES[op['cookie'] % len(COOKIES)]
                 if ck:
                     hdr['Cookie'] = ck
                 body = b'unread_p=pv&x=1' if op['method'] == 'POST' else b''
@@ -380,16 +393,9 @@ class C15(Check):
                 ae, accepts = AES[op['ae']]
                 out = []
                 for app, client in ((bare, c1), (full, c2)):
-                    hdr = {}
-                    if ae is not None:
-                        hdr['Accept-Encoding'] = ae
-                    ck = client.cookie_header()
-                    if ck:
-                        hdr['Cookie'] = ck
-                    body = b'unread_p=pv&x=1' if op['method'] == 'POST' else b''
-                    if op['method'] == 'POST':
-                        hdr['Content-Type'] = 'application/x-www-form-urlencoded'
-                    env = make_environ(op['method'], op['path'], headers=hdr, body=body)
+                    env = request_env(op, client)
+                    if op.get('cookie'):
+                        res.probe('unsolicited-cookie-header')
                     t0 = clock.now
                     if app is full:
                         clock.jitter = list(op.get('jitter') or [])
